@@ -1,7 +1,7 @@
 (* Property C09 (the export depends only on which secrets are supplied, not on how) -- statements only. *)
 From Coq Require Import ZArith List Bool.
 From Coq Require String.
-Require Import PyLib SuiteTypes Crypto KeySchedule QuicKeys Packet QuicFrames Main Keylog C09P C09OrderP.
+Require Import PyLib SuiteTypes Crypto KeySchedule QuicKeys Packet QuicFrames Main Keylog C09P C09OrderP C09SplitP.
 Import ListNotations.
 Open Scope Z_scope.
 
@@ -12,14 +12,25 @@ Theorem C09_line_ends : forall ls, ls <> [] -> Forall no_eol ls ->
 Proof. exact keys_of_lines. Qed.
 Print Assumptions C09_line_ends.
 
+(* the log split at line boundaries over any number of texts -- secrets blocks --, each text with LF or CRLF between its lines and no
+   terminator after its last line (or with one: an empty last line contributes nothing, C09_blank): text by text, the keys of the whole
+   log in order.  Blocks are never joined: a block's last line ends with the block. *)
+Theorem C09_split_over_blocks : forall lss, Forall (fun ls => ls <> [] /\ Forall no_eol ls) lss -> concat lss <> [] ->
+  concat (map (fun ls => get_keys_from_string (join [10] ls)) lss) = get_keys_from_string (join [10] (concat lss)) /\
+  concat (map (fun ls => get_keys_from_string (join [13; 10] ls)) lss) = get_keys_from_string (join [10] (concat lss)).
+Proof. exact split_over_texts. Qed.
+Print Assumptions C09_split_over_blocks.
+
 (* comment lines, blank lines and anything that is not "LABEL random secret" contribute nothing, wherever they stand *)
 Theorem C09_decorations : forall ls,
   flat_map key_of_line ls = flat_map key_of_line (filter (fun l => match match_line l with Some _ => true | None => false end) ls).
 Proof. exact decorations_ignored. Qed.
 Theorem C09_comment : forall l, key_of_line (35 :: l) = [].
 Proof. exact comment_line. Qed.
+Print Assumptions C09_comment.
 Theorem C09_blank : key_of_line [] = [].
 Proof. exact blank_line. Qed.
+Print Assumptions C09_blank.
 Print Assumptions C09_decorations.
 
 (* upper- or lower-case hex digits give the same key *)
@@ -62,6 +73,7 @@ Theorem C09_first_line : forall C v cs a b cr sr, v <> TLS13 -> hd_error a = hd_
 Proof. exact derive_uses_first_line. Qed.
 Theorem C09_duplicates_first_line : forall (a b : list secret) x, (forall s, In s a -> s = x) -> (forall s, In s b -> s = x) -> a <> [] -> b <> [] -> hd_error a = hd_error b.
 Proof. exact first_line_same. Qed.
+Print Assumptions C09_duplicates_first_line.
 Print Assumptions C09_first_line.
 
 (* non-vacuity: a two-line log with CRLF, a comment and upper-case digits *)
